@@ -44,6 +44,8 @@ pub(crate) mod types;
 
 #[cfg(feature = "verif")]
 pub mod verif_hooks;
+#[cfg(feature = "verif")]
+pub mod verif_atomrace;
 
 // Re-exports
 pub use machine::Machine;
